@@ -47,27 +47,27 @@ package deps
 // ---- Maven
 
 // the element tree of a pom's <dependencies>: children are elements, and so are theirs; groupId / artifactId / scope hold text only
-//@ spec Kid(n xmlparse.XMLNode, i int) xmlparse.XMLNode := n.Elements[i].Val.(xmlparse.XMLNode)
+//@ spec XKid(n xmlparse.XMLNode, i int) xmlparse.XMLNode := n.Elements[i].Val.(xmlparse.XMLNode)
 //@ spec IsField(s string) bool := s == "groupId" || s == "artifactId" || s == "scope"
 //@ spec TextOnly(n xmlparse.XMLNode) bool := forall t int :: {n.Elements[t]} 0 <= t && t < len(n.Elements) ==> TypeIs(n.Elements[t].Val, string)
-//@ spec DepShape(d xmlparse.XMLNode) bool := forall j int :: {d.Elements[j]} 0 <= j && j < len(d.Elements) ==> TypeIs(d.Elements[j].Val, xmlparse.XMLNode) && (IsField(Kid(d, j).Name) ==> TextOnly(Kid(d, j)))
-//@ spec PomShape(v xmlparse.XMLNode) bool := forall i int :: {v.Elements[i]} 0 <= i && i < len(v.Elements) ==> TypeIs(v.Elements[i].Val, xmlparse.XMLNode) && DepShape(Kid(v, i))
+//@ spec DepShape(d xmlparse.XMLNode) bool := forall j int :: {d.Elements[j]} 0 <= j && j < len(d.Elements) ==> TypeIs(d.Elements[j].Val, xmlparse.XMLNode) && (IsField(XKid(d, j).Name) ==> TextOnly(XKid(d, j)))
+//@ spec PomShape(v xmlparse.XMLNode) bool := forall i int :: {v.Elements[i]} 0 <= i && i < len(v.Elements) ==> TypeIs(v.Elements[i].Val, xmlparse.XMLNode) && DepShape(XKid(v, i))
 
 // text of the field `name` of a <dependency>: the last text of the last non-empty child element of that name
 //@ spec LastText(n xmlparse.XMLNode) string := n.Elements[len(n.Elements) - 1].Val.(string)
-//@ spec rec Field(d xmlparse.XMLNode, name string, k int) string := k <= 0 ? "" : (Kid(d, k - 1).Name == name && len(Kid(d, k - 1).Elements) > 0 ? LastText(Kid(d, k - 1)) : Field(d, name, k - 1))
+//@ spec rec Field(d xmlparse.XMLNode, name string, k int) string := k <= 0 ? "" : (XKid(d, k - 1).Name == name && len(XKid(d, k - 1).Elements) > 0 ? LastText(XKid(d, k - 1)) : Field(d, name, k - 1))
 //@ spec FieldOf(d xmlparse.XMLNode, name string) string := Field(d, name, len(d.Elements))
 
 // r lists the children of <dependencies> v: one entry per child, in order, with its three fields and nothing else
 //@ spec Extracted(r []core_domain.CodeDependency, v xmlparse.XMLNode) bool := len(r) == len(v.Elements) &&
-//@    (forall i int :: {r[i]} 0 <= i && i < len(r) ==> r[i].GroupId == FieldOf(Kid(v, i), "groupId") && r[i].ArtifactId == FieldOf(Kid(v, i), "artifactId") && r[i].Scope == FieldOf(Kid(v, i), "scope") &&
+//@    (forall i int :: {r[i]} 0 <= i && i < len(r) ==> r[i].GroupId == FieldOf(XKid(v, i), "groupId") && r[i].ArtifactId == FieldOf(XKid(v, i), "artifactId") && r[i].Scope == FieldOf(XKid(v, i), "scope") &&
 //@        r[i].Type == "" && r[i].Version == "" && !r[i].Optional)
 
 //@ func BuildDeps
 //@ requires PomShape(val)
 //@ ensures Extracted(result, val)
 //@ loop 1 invariant len(deps) == #i
-//@ loop 1 invariant forall i int :: {deps[i]} 0 <= i && i < #i ==> deps[i].GroupId == FieldOf(Kid(val, i), "groupId") && deps[i].ArtifactId == FieldOf(Kid(val, i), "artifactId") && deps[i].Scope == FieldOf(Kid(val, i), "scope")
+//@ loop 1 invariant forall i int :: {deps[i]} 0 <= i && i < #i ==> deps[i].GroupId == FieldOf(XKid(val, i), "groupId") && deps[i].ArtifactId == FieldOf(XKid(val, i), "artifactId") && deps[i].Scope == FieldOf(XKid(val, i), "scope")
 //@ loop 1 invariant forall i int :: {deps[i]} 0 <= i && i < #i ==> deps[i].Type == "" && deps[i].Version == "" && !deps[i].Optional
 //@ loop 2 invariant dependency != nil && Allocated(dependency)
 //@ loop 2 invariant (*dependency).GroupId == Field(depNode, "groupId", #i) && (*dependency).ArtifactId == Field(depNode, "artifactId", #i) && (*dependency).Scope == Field(depNode, "scope", #i)
@@ -86,11 +86,11 @@ package deps
 //@ loop 5 invariant (*dependency).Type == "" && (*dependency).Version == "" && !(*dependency).Optional
 
 // the root of a conventional pom: elements only, and its <dependencies> children are well shaped
-//@ spec RootShape(r xmlparse.XMLNode) bool := forall i int :: {r.Elements[i]} 0 <= i && i < len(r.Elements) ==> TypeIs(r.Elements[i].Val, xmlparse.XMLNode) && (Kid(r, i).Name == "dependencies" ==> PomShape(Kid(r, i)))
-//@ spec NoDepsBefore(n xmlparse.XMLNode, k int) bool := forall j int :: {n.Elements[j]} 0 <= j && j < k ==> Kid(n, j).Name != "dependencies"
+//@ spec RootShape(r xmlparse.XMLNode) bool := forall i int :: {r.Elements[i]} 0 <= i && i < len(r.Elements) ==> TypeIs(r.Elements[i].Val, xmlparse.XMLNode) && (XKid(r, i).Name == "dependencies" ==> PomShape(XKid(r, i)))
+//@ spec NoDepsBefore(n xmlparse.XMLNode, k int) bool := forall j int :: {n.Elements[j]} 0 <= j && j < k ==> XKid(n, j).Name != "dependencies"
 
 // the first <dependencies> child of the root is the one extracted; without one the result is nil
 //@ func AnalysisMaven
 //@ assert return NoDepsBefore(*parseXml, len((*parseXml).Elements)) ==> result == nil
-//@ assert return forall k int :: {(*parseXml).Elements[k]} 0 <= k && k < len((*parseXml).Elements) && Kid(*parseXml, k).Name == "dependencies" && NoDepsBefore(*parseXml, k) ==> Extracted(result, Kid(*parseXml, k))
+//@ assert return forall k int :: {(*parseXml).Elements[k]} 0 <= k && k < len((*parseXml).Elements) && XKid(*parseXml, k).Name == "dependencies" && NoDepsBefore(*parseXml, k) ==> Extracted(result, XKid(*parseXml, k))
 //@ loop 1 invariant NoDepsBefore(*parseXml, #i)
